@@ -31,6 +31,8 @@ def run(ctx):
     trace_validation(ctx, C, M_code)
     seqnum_table(ctx, C, M_code)
     ack_fields(ctx)
+    from props import conn_judge as J
+    J.after_disconnect(ctx, "C08")
 
 
 # ------------------------------------------------------------------ design: ring laws
